@@ -62,6 +62,11 @@ class RoleInterp(OrderInterp):
         super().__init__(prog, module)
         self.on_call = on_call
         self.visited: set[str] = set()   # qualified names of every program function interpreted
+        self.tolerant: list[str] = []    # this abstract run: isclose tests that let a non-zero value pass as zero
+
+    def reset(self) -> None:
+        super().reset()
+        self.tolerant = []
 
     # ---- receivers: methods resolve through the program, state reads fail closed
     def obj_method(self, base: Obj, attr: str, node: ast.AST) -> Any:
@@ -82,7 +87,43 @@ class RoleInterp(OrderInterp):
                             f"(line {getattr(node, 'lineno', '?')}): not modelled")
         super().set_attr(base, attr, v, node)
 
+    # ---- Quantity.isclose against zero with explicit tolerances
+    #      math.isclose(v, 0, rel_tol=r, abs_tol=t)  <=>  |v| <= max(r*|v|, t)
+    #        t == 0 and r < 1 : v == 0 (the engine's model)
+    #        r >= 1           : always true
+    #        t > 0            : true for v == 0; for v != 0 true or false (|v| <= t or not) — the order
+    #                           domain has no magnitudes, so both outcomes are explored and a non-zero v
+    #                           that counts as "close" keeps every order relation to the other inputs
+    def _isclose(self, recv: Any, pos: list[Any], kw: dict[str, Any], node: ast.AST) -> Any:
+        extra = set(kw) - {"other", "rel_tol", "abs_tol"}
+        if extra or len(pos) > 3:
+            raise AnalysisError(f"isclose called with {sorted(extra) or 'too many'} arguments: not modelled")
+        other = pos[0] if pos else kw.get("other")
+        rel = pos[1] if len(pos) > 1 else kw.get("rel_tol", 1e-9)
+        tol = pos[2] if len(pos) > 2 else kw.get("abs_tol", 0.0)
+        if isinstance(recv, Atom) and recv.name == "ZERO" and isinstance(other, Atom):
+            recv, other = other, recv          # math.isclose is symmetric
+        if not (isinstance(recv, Atom) and isinstance(other, Atom) and other.name == "ZERO"):
+            raise AnalysisError("isclose against a non-zero value is not order-only")
+        num = (int, float)
+        exact = isinstance(rel, num) and isinstance(tol, num) and not isinstance(rel, bool) \
+            and not isinstance(tol, bool) and tol == 0 and 0 <= rel < 1
+        if exact:
+            return self.cmp3(recv, other) == "="
+        if (isinstance(rel, num) and rel < 0) or (isinstance(tol, num) and tol < 0):
+            raise _Raise("ValueError (negative tolerance in isclose)", node)
+        if self.cmp3(recv, other) == "=":
+            return True
+        shown = ast.unparse(node) if isinstance(node, ast.AST) else "isclose(...)"
+        self.tolerant.append(shown)
+        if isinstance(rel, num) and rel >= 1:
+            return True
+        return self.choose(2, f"`{shown}` for a non-zero {recv} (0 = beyond the tolerance, 1 = within it: "
+                              "treated as zero)") == 1
+
     def apply(self, fn: Any, pos: list[Any], kw: dict[str, Any], node: ast.AST) -> Any:
+        if isinstance(fn, tuple) and len(fn) == 3 and fn[0] == "builtin" and fn[1] == "isclose":
+            return self._isclose(fn[2], pos, kw, node)
         if isinstance(fn, tuple) and fn and fn[0] == "bound" and is_static(fn[1]):
             return self._call_plain(fn[1], pos, kw)
         if isinstance(fn, FuncInfo) and fn.cls is not None and is_static(fn):
@@ -111,6 +152,13 @@ class RoleInterp(OrderInterp):
             except AnalysisError:
                 pass  # the real call below reports it
         return super().call_func(fn, pos, kw)
+
+    def identical(self, a: Any, b: Any) -> bool:
+        # `x is None` on a value the run must not depend on is a dependence too
+        for v in (a, b):
+            if isinstance(v, Poison):
+                raise AnalysisError(f"identity test on {v!r} not interpretable")
+        return super().identical(a, b)
 
     # ---- lexicographic comparison of tuples of atoms / concrete keys
     def _rel(self, a: Any, b: Any) -> str:
